@@ -91,6 +91,13 @@ static int pathops(const char *script, const char *outp) {
           size_t L = strlen(t + 2); char *at = pg[ns] + 2 * 4096 - (L / 2 ? L / 2 : 1);
           memcpy(at, t + 2, L + 1); a[i] = (unsigned long)at; ns++;
         }
+        else if (t[0] == 'w') {
+          // the same, in a page that is mapped PROT_WRITE only
+          static char *pw[8]; if (!pw[ns]) pw[ns] = mmap(NULL, 3 * 4096, PROT_READ | PROT_WRITE, MAP_PRIVATE | MAP_ANONYMOUS, -1, 0);
+          mprotect(pw[ns], 3 * 4096, PROT_READ | PROT_WRITE);
+          size_t L = strlen(t + 2); char *at = pw[ns] + 64;
+          memcpy(at, t + 2, L + 1); mprotect(pw[ns], 3 * 4096, PROT_WRITE); a[i] = (unsigned long)at; ns++;
+        }
         else if (t[0] == 'd') a[i] = po_dspec(t + 2);
         else if (t[0] == 'n') a[i] = strtoul(t + 2, NULL, 0);
         else if (t[0] == 'h') { how[0] = strtoul(t + 2, NULL, 0); how[1] = 0; how[2] = 0; a[i] = (unsigned long)how; }
